@@ -18,4 +18,5 @@ def bounded_jobs(tier, seed):
         bj('rcc.b_C14', 'run_relative', tier, seed),
         bj('rcc.b_C14', 'run_iter', tier, seed),
         bj('rcc.b_C14', 'run_find', tier, seed),
+        bj('rcc.b_C14', 'run_find_args', tier, seed),
     ]
